@@ -100,6 +100,22 @@ theorem reconnect_two_monitors (strict : Bool) (S1 S2 : List String) (hdisj : âˆ
     { s0 with cache := c4, deferring := false, deferred := [] } rfl hf hb2 hs2
   exact âŸ¨this.2.1, this.1, this.2.2.2.1âŸ©
 
+
+/-- **C16 (2')** the same with the disjointness of the two table sets discharged by
+    the guard of `Monitor()`: the monitors a client has were accepted one after the
+    other, so no table is covered twice -/
+theorem reconnect_two_monitors_guarded (strict : Bool) (S1 S2 : List String) (hacc : monitorAccepted [S1] S2 = true)
+    (s0 : ClientSt) (hf : s0.failed = false) (db1 db2 dbm : Store)
+    (na nb late x1 x2 x3 : List (List Change)) (hsplit : x1 ++ x2 ++ x3 = na ++ nb)
+    (ha : Chain strict S1 db1 na db2) (hb : Chain strict (S1 ++ S2) db2 (nb ++ late) dbm) :
+    let s := run strict false s0 ([Action.disconnect, Action.reBegin 2] ++ x1.map Action.notif ++
+      [Action.reReply 2 false (initialOf S1 db1)] ++ x2.map Action.notif ++
+      [Action.reReply 2 false (initialOf S2 db2)] ++ x3.map Action.notif ++ [Action.reEnd] ++ late.map Action.notif)
+    s.failed = false âˆ§ s.deferring = false âˆ§ Mirror (S1 ++ S2) s.cache dbm :=
+  reconnect_two_monitors strict S1 S2
+    (fun t ht => (C01.monitorAccepted_iff [S1] S2).mp hacc S1 (List.mem_singleton.mpr rfl) t ht)
+    s0 hf db1 db2 dbm na nb late x1 x2 x3 hsplit ha hb
+
 /-! ### the pinned client loses the first monitor's tables (defect D8) -/
 
 def rowA : Row := [("name", .atom (.str "a"))]
